@@ -312,8 +312,8 @@ pub struct SnapWorker {
     pub id: u32,
     /// Some((assigned, free amounts, prefilled)) for a single-node assignment
     pub sn: Option<(Vec<crate::TaskId>, Vec<u64>, Vec<crate::TaskId>)>,
-    /// Some((task, is_root)) for a multi-node assignment
-    pub mn: Option<(crate::TaskId, bool)>,
+    /// Some((task, is_root, is_started)) for a multi-node assignment
+    pub mn: Option<(crate::TaskId, bool, bool)>,
     pub total: Vec<u64>,
     pub blocked: Vec<(u32, u32)>,
     pub group: String,
@@ -406,7 +406,9 @@ impl VerifServer {
                             None,
                         )
                     }
-                    WorkerAssignment::Mn(m) => (None, Some((m.task_id, m.is_root))),
+                    WorkerAssignment::Mn(m) => {
+                        (None, Some((m.task_id, m.is_root, m.is_started)))
+                    }
                 };
                 SnapWorker {
                     id: w.id.as_num(),
